@@ -837,6 +837,62 @@ def _():
     return ext_eq_s(T.trues(z3.K(T.TabK, False), tv), z3.K(T.TabK, False), T.TabK)
 
 
+def _quot_setup():
+    D, R = SV(REC('DFA'), Const('D_', T._DFAs)), SV(REC('DFA'), Const('R_', T._DFAs))
+    return dict(D=D, R=R, Q=rec_get(D, 'Q').z, Sg=rec_get(D, 'Sigma').z, F=rec_get(D, 'F').z, d=T.dfa_delta_val(D), d2=T.dfa_delta_val(R), st=T.quot_struct(D, R))
+
+
+@proof('quot', 'cls-eq')
+def _():
+    D = SV(REC('DFA'), Const('D_', T._DFAs)); x, y = Consts('x_ y_', Atom)
+    return ext_eq(T.clsF(D.z, x), T.clsF(D.z, y), [Not(T._dist(D, x, y))])
+@proof('quot', 'cls-congruence')
+def _():
+    D = SV(REC('DFA'), Const('D_', T._DFAs)); x, y, a = Consts('x_ y_ a_', Atom); d = T.dfa_delta_val(D)
+    return [('contrapositive', [Select(rec_get(D, 'Sigma').z, a), T._dist(D, Select(d, T.mkKey2(x, a)), Select(d, T.mkKey2(y, a)))], T._dist(D, x, y))]
+
+
+@proof('quot', 'quot-sim')
+def _():
+    c = _quot_setup(); D, R = c['D'], c['R']; x = Const('x_', Atom)
+    closed = ForAll([x, w_], Implies(And(Select(c['Q'], x), T.over(c['Sg'], w_)), Select(c['Q'], T.dhat(c['d'], x, w_))))
+    P = lambda w: ForAll([x], Implies(And(Select(c['Q'], x), T.over(c['Sg'], w)), T.dhat(c['d2'], T.cname(D.z, x), w) == T.cname(D.z, T.dhat(c['d'], x, w))))
+    return [('closed', [c['st']], closed)] + [(t, [c['st'], closed] + h, g) for (t, h, g) in word_ind(P)]
+
+
+@proof('quot', 'quot-lang')
+def _():
+    c = _quot_setup(); D, R = c['D'], c['R']; x = Const('x_', Atom); w = Const('w_', Word)
+    stb = T.quot_b(D.z, R.z); q0 = rec_get(D, 'q0').z
+    e = T.dhat(c['d'], q0, w)
+    s1 = ('run', [c['st'], stb, T.over(c['Sg'], w)], And(T.dhat(c['d2'], rec_get(R, 'q0').z, w) == T.cname(D.z, e), Select(c['Q'], e)))
+    # a class name is accepting iff its members are: equivalent states agree on acceptance, and names determine classes
+    s2 = ('acc-class', [c['st'], Select(c['Q'], e)], Select(rec_get(R, 'F').z, T.cname(D.z, e)) == Select(c['F'], e))
+    return [s1, s2, ('final', [s1[2], s2[2]], T._acc(R, w) == T._acc(D, w))]
+
+
+@proof('quot', 'quot-dist')
+def _():
+    c = _quot_setup(); D, R = c['D'], c['R']; x, y = Consts('x_ y_', Atom); v = Const('v_', Word)
+    stb = T.quot_b(D.z, R.z)
+    sx, sy = T.cname(D.z, x), T.cname(D.z, y)
+    # two different class names come from distinguishable states; a distinguishing word for them distinguishes the names in the quotient
+    s1 = ('states-dist', [c['st'], Select(c['Q'], x), Select(c['Q'], y), sx != sy], T._dist(D, x, y))
+    ex = T.dhat(c['d'], x, v); ey = T.dhat(c['d'], y, v)
+    s2 = ('word', [c['st'], stb, Select(c['Q'], x), Select(c['Q'], y), T.over(c['Sg'], v), Select(c['F'], ex) != Select(c['F'], ey)],
+          And(T.dhat(c['d2'], sx, v) == T.cname(D.z, ex), T.dhat(c['d2'], sy, v) == T.cname(D.z, ey), Select(c['Q'], ex), Select(c['Q'], ey)))
+    s3a = ('acc-x', [c['st'], Select(c['Q'], ex)], Select(rec_get(R, 'F').z, T.cname(D.z, ex)) == Select(c['F'], ex))
+    s3b = ('acc-y', [c['st'], Select(c['Q'], ey)], Select(rec_get(R, 'F').z, T.cname(D.z, ey)) == Select(c['F'], ey))
+    s3 = ('acc', [s3a[2], s3b[2]], And(s3a[2], s3b[2]))
+    s4 = ('dist-R', [c['st'], s2[2], s3[2], T.over(c['Sg'], v), Select(c['F'], ex) != Select(c['F'], ey)], T._dist(R, sx, sy))
+    s5 = ('names', [c['st'], Select(c['Q'], x), Select(c['Q'], y), sx != sy,
+                    ForAll([v], Implies(And(T.over(c['Sg'], v), Select(c['F'], T.dhat(c['d'], x, v)) != Select(c['F'], T.dhat(c['d'], y, v))), T._dist(R, sx, sy))), T._dist(D, x, y)], T._dist(R, sx, sy))
+    s1_, s2_ = Consts('s1_ s2_', Atom)
+    fin = ('final', [c['st'], ForAll([x, y], Implies(And(Select(c['Q'], x), Select(c['Q'], y), T.cname(D.z, x) != T.cname(D.z, y)), T._dist(R, T.cname(D.z, x), T.cname(D.z, y)))),
+                     Select(rec_get(R, 'Q').z, s1_), Select(rec_get(R, 'Q').z, s2_), s1_ != s2_], T._dist(R, s1_, s2_))
+    return [s1, s2, s3a, s3b, s3, s4, s5, fin]
+
+
 def int_ind(P, lo=0):
     """induction on an integer >= lo: P(lo) and (j >= lo and P(j)) => P(j+1)"""
     j = fresh_z('j', z3.IntSort())
@@ -861,7 +917,7 @@ def prove_lemmas(theories, timeout=10):
     """-> list of (name, status, log); a lemma may use the def/lfp/assumed axioms of the selected theories and earlier lemmas"""
     from .smt import discharge
     obls = []
-    order = ['word', 'wordx', 'naming', 'dfa', 'nfa', 'dfax', 'nerode', 'nfax', 'regexp', 'nfastar', 'tm', 'pda', 'pdax', 'cfg', 'iso', 'subset']
+    order = ['word', 'wordx', 'naming', 'dfa', 'nfa', 'dfax', 'nerode', 'quot', 'nfax', 'regexp', 'nfastar', 'tm', 'pda', 'pdax', 'cfg', 'iso', 'subset']
     ths = [t for t in order if t in theories] + [t for t in theories if t not in order]
     from .verify import DEPENDS
     def closure(t, out=None):
